@@ -10,6 +10,14 @@ import time
 import esrv
 
 PROPS_V = "Props/C11.v"
+# functions the hand-written model of this property was written against (normalised source stored under harness/corr/guards/;
+# a difference is reported as broken-correspondence: the theorems then no longer speak about the current source)
+SOURCE_GUARDS = [
+    ("esr/generation/generator.py", "update_tree"),
+    ("esr/generation/generator.py", "update_sums"),
+    ("esr/generation/generator.py", "find_additional_trees"),
+]
+
 TRANSLATORS = []
 TRUSTED = [
     "Coq 8.16.1 kernel + vm_compute (no native_compute)",
